@@ -40,21 +40,21 @@ def parseSrc (ty : Ty) (s : String) : Option Src :=
     | some v => if inRange ty v then some (.int v) else none
     | none => none
 
-/-- S: the content of the target object that denotes the same number as the source, if there is one -/
+/-- S: the content of the target object that denotes the same number as the source, if there is one
+    (a floating target must hold exactly the source number: a rounded value is a different number) -/
 def expected (src tgt : Ty) (s : Src) : Option String :=
   match s with
   | .int v =>
     if tgt.isFloat then
       match roundFin (tgtCTy tgt).fmt (decide (v < 0)) v.natAbs 0 with
-      | .fin sg m e => some (outText tgt (.flt (.fin sg m e)))
+      | .fin sg m e => if (FVal.fin sg m e).toInt? = some v then some (outText tgt (.flt (.fin sg m e))) else none
       | _ => none
     else if inRange tgt v ∧ (tgt = .c → src = .c ∨ isGraph v) then some (hexLE (intBits tgt v) tgt.size)
     else none
   | .flt x =>
     if tgt.isFloat then
-      match x, round (tgtCTy tgt).fmt x with
-      | .fin .., .inf _ => none              -- finite source, infinite result: saturation
-      | _, r => some (outText tgt (.flt r))
+      let r := round (tgtCTy tgt).fmt x
+      if r.same x then some (outText tgt (.flt r)) else none
     else
       match x.toInt? with
       | some v => if inRange tgt v ∧ (tgt = .c → isGraph v) then some (hexLE (intBits tgt v) tgt.size) else none
@@ -87,20 +87,6 @@ def fmtVal (tgt : Ty) (rd rq : Res (Option Out × Nat)) (withRet : Bool := false
     s!"R dst={resName rd} out={out} ret={retObs (·.2) rd} nodst={resName rq} qret={retObs (·.2) rq} | C - | I ret={retName (·.2) rd} qret={retName (·.2) rq}"
   else
     s!"R dst={resName rd} out={out} nodst={resName rq} | C - | I ret={retName (·.2) rd} qret={retName (·.2) rq}"
-
-/-- `mpt_value_convert` restricted to scalar source and target types: the converter, then the raw copy of
-    an identical type (scalar traits have neither init nor fini), else BadType -/
-def valueConvert (src tgt : Ty) (s : Src) (dest : Bool) : Res (Option Out × Nat) :=
-  match conv src tgt s dest with
-  | .ok (o, _) => .ok (o, if src = tgt then 0 else 3)
-  | .err _ =>
-    if src = tgt then
-      let o : Out := match s with
-        | .int v => .int (intBits src v)
-        | .flt x => .flt x
-      .ok (if dest then some o else none, 0)
-    else .err .BadType
-  | r => r
 
 /-! sweep: every value of a range, both modes -/
 
@@ -181,45 +167,63 @@ def parseAlts (w : String) : Option (List (Nat × String)) :=
     | [k, v] => k.toNat?.map fun k => (k, v)
     | _ => none
 
+/-- oracle value text: a leading `~` marks a numeral that is not exactly representable (the value is its rounding) -/
+def altInexact (v : String) : Bool := v.startsWith "~"
+def altValue (v : String) : String := if v.startsWith "~" then (v.drop 1).toString else v
+
 def floatParserFor (fn : String) (tgt : Ty) : Option TextParser :=
   let name : Option String :=
     if fn = "cflt" then some (if tgt = .f then "mpt_cfloat" else if tgt = .d then "mpt_cdouble" else "mpt_cldouble")
     else (Generated.Text.numberDispatch.find? (·.1 = tgt.code)).map (·.2.1)
   name.bind fun n => Generated.Text.parsers.find? (·.name = n)
 
-def ftextLine (fn : String) (tgt : Ty) (s0 : List Nat) (alts : List (Nat × String)) : String :=
-  -- `mpt_convert_string` skips the blanks itself and reports "no value" as 0
-  let ws := (s0.takeWhile isSpace).length
-  let s := if fn = "string" then s0.drop ws else s0
-  let off := if fn = "string" then ws else 0
+/-- the libc result taken from the generator's oracle word: the longest numeral prefix of the text that starts
+    `off` bytes into the operand -/
+def oracleAt (fmt : Fmt) (alts : List (Nat × String)) (off : Nat) : StrToF :=
   let best := alts.foldl (fun (b : Option (Nat × String)) a => match b with
     | some (k, _) => if a.1 > k then some a else b
     | none => some a) none
-  let oracle : StrToF × String := match best with
-    | some (k, v) =>
-      if v = "ovf" then ({ value := .inf false, consumed := k - off, erange := true, overflow := true }, v)
-      else if v = "-ovf" then ({ value := .inf true, consumed := k - off, erange := true, overflow := true }, v)
-      else if v = "nan" then ({ value := .nan, consumed := k - off, erange := false, overflow := false }, v)
-      else match parseHex v with
-        | some bs => ({ value := decode (tgtCTy tgt).fmt (leValue bs), consumed := k - off, erange := false, overflow := false }, v)
-        | none => ({ value := .nan, consumed := 0, erange := false, overflow := false }, v)
-    | none => ({ value := .nan, consumed := 0, erange := false, overflow := false }, "-")
-  let res : Res (Option FVal × Nat) := match floatParserFor fn tgt with
-    | some p => runFloatParser p oracle.1 s true
+  match best with
+  | some (k, v) =>
+    if v = "ovf" then { value := .inf false, consumed := k - off, erange := true, overflow := true }
+    else if v = "-ovf" then { value := .inf true, consumed := k - off, erange := true, overflow := true }
+    else if v = "nan" then { value := .nan, consumed := k - off, erange := false, overflow := false }
+    else match parseHex (altValue v) with
+      | some bs => { value := decode fmt (leValue bs), consumed := k - off, erange := false, overflow := false }
+      | none => { value := .nan, consumed := 0, erange := false, overflow := false }
+  | none => { value := .nan, consumed := 0, erange := false, overflow := false }
+
+/-- `strtof/strtod/strtold`: the decimal model of Impl/Convert.lean wherever it applies (so the oracle alternatives
+    in S cross-check it), the oracle for hexadecimal numerals, infinities and NaN -/
+def strtoF (fmt : Fmt) (alts : List (Nat × String)) (s0 t : List Nat) : StrToF :=
+  if decimalOnly t then strtoDec fmt t else oracleAt fmt alts (s0.length - t.length)
+
+def ftextRun (fn : String) (tgt : Ty) (s0 : List Nat) (alts : List (Nat × String)) (dest : Bool) :
+    Res (Option FVal × Nat) :=
+  let strto := strtoF (tgtCTy tgt).fmt alts s0
+  if fn = "string" then convertStringF tgt strto s0 dest
+  else if fn = "number" then convertNumberF tgt strto s0 dest
+  else match floatParserFor fn tgt with
+    | some p => runFloatParser p (strto s0) s0 dest
     | none => .err .BadType
-  let r : String × String × String := match res with
-    | .ok (some _, n) => ("ok", toString (n + off), oracle.2)
-    | .ok (none, n) => ("ok", toString (if n = 0 then 0 else n + off), "-")
+
+def ftextLine (fn : String) (tgt : Ty) (s0 : List Nat) (alts : List (Nat × String)) : String :=
+  let show1 (res : Res (Option FVal × Nat)) : String × String × String := match res with
+    | .ok (some v, n) => ("ok", toString n, outText tgt (.flt v))
+    | .ok (none, n) => ("ok", toString n, "-")
     | .err e => ("refused", e.name, "-")
     | x => (resName x, "-", "-")
+  let r := show1 (ftextRun fn tgt s0 alts true)
+  let q := show1 (ftextRun fn tgt s0 alts false)
   let nn := if r.1 = "ok" then r.2.1 else "-"
+  let qn := if q.1 = "ok" then q.2.1 else "-"
   let oks := (List.range (s0.length + 1)).filterMap fun k =>
     if (s0.take k).all isSpace then some s!"dst=ok n={k} out=- nodst=ok n={k} ; *" else
     match alts.find? (·.1 = k) with
-    | some (_, v) => if v = "ovf" ∨ v = "-ovf" then none else some s!"dst=ok n={k} out={v} nodst=ok n={k} ; *"
+    | some (_, v) => if v = "ovf" ∨ v = "-ovf" ∨ altInexact v then none else some s!"dst=ok n={k} out={v} nodst=ok n={k} ; *"
     | none => none
   let spec := " || ".intercalate (oks ++ ["dst=refused n=- out=- nodst=refused n=- ; *"])
-  s!"R dst={r.1} n={nn} out={r.2.2} nodst={r.1} n={nn} | C - | I ret={r.2.1} | S {spec}"
+  s!"R dst={r.1} n={nn} out={r.2.2} nodst={q.1} n={qn} | C - | I ret={r.2.1} | S {spec}"
 
 def step (_ : Unit) (w : List String) : Unit × String :=
   match w with
@@ -240,62 +244,27 @@ def step (_ : Unit) (w : List String) : Unit × String :=
       | none => ((), "bad-op")
     | _, _ => ((), "bad-op")
   | ["c", "consume", s, t, v] =>
-    -- `mpt_iterator_consume`: `mpt_value_convert` into a temporary, then a copy of the target's size;
-    -- the return value is the source type code
     match Ty.ofName s, Ty.ofName t with
     | some src, some tgt =>
       match parseSrc src v with
       | some x =>
-        let f (d : Bool) : Res (Option Out × Nat) := match valueConvert src tgt x d with
-          | .ok (o, _) => .ok (o, src.code)
-          | r => r
-        ((), fmtVal tgt (f true) (f false) ++ " | S " ++ altsVal (expected src tgt x))
+        ((), fmtVal tgt (consume src tgt x true) (consume src tgt x false) ++ " | S " ++ altsVal (expected src tgt x))
       | none => ((), "bad-op")
     | _, _ => ((), "bad-op")
   | ["c", "argv", s, t, v] =>
-    -- the value passes through `mpt_process_vararg`: `mpt_value_argv` stores the promoted argument back in its
-    -- type (`argvPass` over the generated `argvTable`; no case for 'e': refused), then `mpt_iterator_consume` reads it
     match Ty.ofName s, Ty.ofName t with
     | some src, some tgt =>
       match parseSrc src v with
       | some x =>
-        let f (d : Bool) : Res (Option Out × Nat) :=
-          match argvPass src x with
-          | .ok x' =>
-            match valueConvert src tgt x' d with
-            | .ok (o, _) => .ok (o, src.code)
-            | r => r
-          | .err e => .err e
-          | .null => .null | .oob => .oob | .fault => .fault
-        ((), fmtVal tgt (f true) (f false) ++ " | S " ++ altsVal (expected src tgt x))
+        ((), fmtVal tgt (argvConsume src tgt x true) (argvConsume src tgt x false) ++ " | S " ++ altsVal (expected src tgt x))
       | none => ((), "bad-op")
     | _, _ => ((), "bad-op")
   | "c" :: "fpoint" :: "val" :: s :: vals =>
-    -- `mpt_fpoint_set`: `mpt_iterator_consume(it, 'f', ..)` for x, then for y (a missing second value repeats x)
     match Ty.ofName s with
     | some src =>
       match vals.mapM (parseSrc src) with
       | some xs =>
         if xs.length = 1 ∨ xs.length = 2 then
-          -- coordinate k is consumed with the k-th generated target code; anything but a direct 'f' store is followed
-          -- by a plain C assignment to the float member (rounds, may overflow to infinity)
-          let cv (k : Nat) (x : Src) : Res String :=
-            match Generated.fpointConsume[k]? with
-            | some (code, direct) =>
-              match Ty.ofCode code with
-              | some via =>
-                match valueConvert src via x true with
-                | .ok (some o, _) =>
-                  if via = .f ∧ direct then .ok (outText .f o)
-                  else match o with
-                    | .flt y => .ok (outText .f (.flt (round binary32 y)))
-                    | .int _ => .fault
-                | .ok (none, _) => .fault
-                | .err e => .err e
-                | .null => .null | .oob => .oob | .fault => .fault
-              | none => .err .BadType
-            | none => .fault
-          let m : Res (List String) := (xs.zipIdx.mapM fun (x, k) => cv k x)
           let spec : Option (List String) := xs.mapM (expected src .f)
           let line (l : List String) : String := match l with
             | [a] => s!"ok n=1 x={a} y={a}"
@@ -304,8 +273,9 @@ def step (_ : Unit) (w : List String) : Unit × String :=
           let alts := match spec with
             | some l => s!"{line l} ; pt=set || refused ; pt=kept"
             | none => "refused ; pt=kept"
-          match m with
-          | .ok l => ((), s!"R {line l} | C pt=set | I ret={l.length} | S {alts}")
+          match fpointSet src xs with
+          | .ok (x, y) =>
+            ((), s!"R ok n={xs.length} x={outText .f (.flt x)} y={outText .f (.flt y)} | C pt=set | I ret={xs.length} | S {alts}")
           | .err e => ((), s!"R refused | C pt=kept | I ret={e.name} | S {alts}")
           | r => ((), s!"R {resName r} | C - | I - | S {alts}")
         else ((), "bad-op")
@@ -317,24 +287,16 @@ def step (_ : Unit) (w : List String) : Unit × String :=
     | some bs, some al =>
       let s := cstr (bs.map (·.toNat))
       let full := al.find? (·.1 = s.length)
-      let oracle : StrToF × String := match full with
-        | some (k, v) =>
-          if v = "ovf" then ({ value := .inf false, consumed := k, erange := true, overflow := true }, v)
-          else if v = "-ovf" then ({ value := .inf true, consumed := k, erange := true, overflow := true }, v)
-          else if v = "nan" then ({ value := .nan, consumed := k, erange := false, overflow := false }, v)
-          else match parseHex v with
-            | some b => ({ value := decode binary32 (leValue b), consumed := k, erange := false, overflow := false }, v)
-            | none => ({ value := .nan, consumed := 0, erange := false, overflow := false }, v)
-        | none => ({ value := .nan, consumed := 0, erange := false, overflow := false }, "-")
       if s = [] ∨ s.any isSpace then ((), "bad-op") else
-      let res := match floatParserFor "number" .f with
-        | some p => runFloatParser p oracle.1 s true
-        | none => .err .BadType
+      -- the element converts itself with `mpt_convert_string(.., 'f', ..)`; a partly consumed word is refused
+      let res : Res (Option FVal × Nat) := match convertStringF .f (strtoF binary32 al s) s true with
+        | .ok (o, n) => if n = s.length then .ok (o, n) else .err .BadType
+        | r => r
       let alts := match full with
-        | some (_, v) => if v = "ovf" ∨ v = "-ovf" then "refused ; pt=kept" else s!"ok n=1 x={v} y={v} ; pt=set || refused ; pt=kept"
+        | some (_, v) => if v = "ovf" ∨ v = "-ovf" ∨ altInexact v then "refused ; pt=kept" else s!"ok n=1 x={v} y={v} ; pt=set || refused ; pt=kept"
         | none => "refused ; pt=kept"
       match res with
-      | .ok (some _, _) => ((), s!"R ok n=1 x={oracle.2} y={oracle.2} | C pt=set | I ret=1 | S {alts}")
+      | .ok (some v, _) => ((), s!"R ok n=1 x={outText .f (.flt v)} y={outText .f (.flt v)} | C pt=set | I ret=1 | S {alts}")
       | .err _ => ((), s!"R refused | C pt=kept | I ret=BadType | S {alts}")
       | r => ((), s!"R {resName r} | C - | I - | S {alts}")
     | _, _ => ((), "bad-op")
